@@ -18,4 +18,27 @@ PROPS = {
         "units": [unit("props", "^TestC14", tier(160000, 8, 300), tier(8000000, 16, 3000))],
         "checks_expected": ["C14/bits"],
     },
+    "C13": {
+        "rule": "compare: ordered scalar pairs by relation class (equal, same value in the other domain, adjacent, one canonical limb "
+                "changed, one Montgomery limb changed, random) from the boundary-biased scalar generator; non-trivial = the two values "
+                "differ. cselect: condition words from {0,1,2,3,4,0xff,2^31,2^32,2^63,2^64-1,...} or uniform, operands in both domains, "
+                "nil operands, receiver aliasing an operand; non-trivial = cond not in {0,1}, u != v, no nil. Distinct: by case hash.",
+        "units": [unit("props", "^TestC13", tier(160000, 8, 300), tier(8000000, 16, 3000))],
+        "checks_expected": ["C13/compare", "C13/cselect"],
+    },
+    "C06": {
+        "rule": "cases (op, s, t, alias, nil, u64): op from {add,sub,mul,square,invert,pow,setuint64,zero,one,minusone,set,copy}; "
+                "operands from the boundary-biased generator in canonical (via Decode) and Montgomery-limb domains; 10% aliased, 10% nil. "
+                "Oracle math/big mod n plus stored-limbs canonicity. Non-trivial = an operand (or the uint64) is > 1. Distinct by case hash.",
+        "units": [unit("props", "^TestC06", tier(120000, 8, 300), tier(6000000, 16, 3000), fuzz=["FuzzScalarOps"])],
+        "checks_expected": ["C06/ops"],
+    },
+    "C07": {
+        "rule": "decode: byte strings by class (canonical values, n+-d, n+-2^k, n with one limb replaced, high values, wrong lengths "
+                "derived from valid encodings, random 0..80 bytes, random 32 bytes) through Decode/UnmarshalBinary/DecodeHex (hex: "
+                "upper/mixed case, odd length, non-hex rune); non-trivial = 32-byte input within 2^128 of n or differing from n in one "
+                "limb, or a non-empty wrong length, or malformed hex. encode: scalars in both domains; non-trivial = value > 1.",
+        "units": [unit("props", "^TestC07", tier(120000, 8, 300), tier(6000000, 16, 3000), fuzz=["FuzzScalarDecode"])],
+        "checks_expected": ["C07/decode", "C07/encode"],
+    },
 }
